@@ -112,9 +112,23 @@ func kConv(c J) interface{} {
 				map[string]interface{}{"name": "rv", "val": text, "cfg": map[string]interface{}{"array": true, "object": false}}}}})...)
 		}
 	}
+	// "before": the referenced setting held another value first and was read through the reference once (what one call
+	// learned must not survive into the next)
+	var before interface{}
+	if b, ok := c["before"]; ok && b != nil && str(c, "via") == "ref" {
+		before = buildValue(b)
+		src["v"], before = before, src["v"]
+	}
 	cfg, err := ucfg.NewFrom(src, opts...)
 	if err != nil {
 		return J{"harness": "source: " + err.Error()}
+	}
+	if before != nil {
+		_ = cfg.Unpack(reflect.New(st).Interface(), opts...)
+		_, _ = cfg.String("w", -1, opts...)
+		if err := cfg.Merge(map[string]interface{}{"v": before}, opts...); err != nil {
+			return J{"harness": "source: " + err.Error()}
+		}
 	}
 	if err := cfg.Unpack(target.Interface(), opts...); err != nil {
 		return canonErr(err)
